@@ -14,6 +14,7 @@ mod c19;
 mod c06;
 mod c01;
 mod c02;
+mod c03;
 
 fn main() {
     let args: Vec<String> = std::env::args().collect();
@@ -38,6 +39,7 @@ fn main() {
             "C06" => c06::search(seed, &budget, thorough),
             "C01" => c01::search(seed, &budget, thorough),
             "C02" => c02::search(seed, &budget, thorough),
+            "C03" => c03::search(seed, &budget, thorough),
             _ => { println!("NOORACLE"); return; }
         };
         match res {
@@ -59,6 +61,7 @@ fn main() {
             "C06" => c06::run(&input),
             "C01" => c01::run(&input),
             "C02" => c02::run(&input),
+            "C03" => c03::run(&input),
             _ => Err("no oracle".to_string()),
         };
         match r {
